@@ -575,6 +575,15 @@ void run_meter(vf::Ctx &c) {
     for (size_t i = 0; i < s.vals.size(); ++i) {
       if (cyc[i] != k) continue;
       opentelemetry::context::Context ctx{};
+#if OPENTELEMETRY_ABI_VERSION_NO >= 2
+      // ABI v2 has four Record overloads per class (with / without attributes x with / without an explicit Context),
+      // each with its own copy of the value guard: the ones without a Context take every other value
+      const bool no_ctx = (all.size() % 2) == 1;
+      if (no_ctx) {
+        if (s.is_long) { if (with_attrs) hi->Record((uint64_t)s.vals[i].i, attrs); else hi->Record((uint64_t)s.vals[i].i); }
+        else { if (with_attrs) hd->Record(s.vals[i].d, attrs); else hd->Record(s.vals[i].d); }
+      } else
+#endif
       if (s.is_long) { if (with_attrs) hi->Record((uint64_t)s.vals[i].i, attrs, ctx); else hi->Record((uint64_t)s.vals[i].i, ctx); }
       else { if (with_attrs) hd->Record(s.vals[i].d, attrs, ctx); else hd->Record(s.vals[i].d, ctx); }
       all.push_back(s.vals[i]);
